@@ -100,6 +100,33 @@ V_Agree(e) ==
              ELSE IF e.res.v.pub.xpub # XpubStr(e, ru.node, DefaultVer("pub", ru.node.net)) THEN "agree-xpub-string"
              ELSE "ok"
 
+\* C18 fault sequences on SHARED objects: steps derive from the root or from the result
+\* of an earlier step; a failed step must leave everything else as it was.
+\* e.inp = [root, steps: seq of [from (0 = root, j = result of step j), i]];
+\* e.res.v = seq of [ok, node]
+V_CkdSeq(e) ==
+  LET root == InNode(e, e.inp.root)
+      n == Len(e.inp.steps)
+      \* spec outcomes, folded left to right
+      outs == FoldLeft(LAMBDA acc, j :
+                 LET st == e.inp.steps[j]
+                     src == IF st.from = 0 THEN K32!Ok(root) ELSE acc[st.from]
+                 IN Append(acc, IF src.out # "ok" THEN K32!Unjudged("source-missing")
+                                ELSE K32!CKD(e, src.node, st.i)),
+                 <<>>, [j \in 1..n |-> j])
+      bad == {j \in 1..n :
+                LET r == outs[j]  g == e.res.v[j]
+                IN /\ r.out # "unjudged"
+                   /\ \/ (r.out = "ok" /\ ~g.ok)
+                      \/ (r.out # "ok" /\ g.ok)
+                      \/ (r.out = "ok" /\ g.ok /\ NodeDiff(r.node, g.node) # "same")}
+  IN IF bad = {} THEN "ok"
+     ELSE LET j == CHOOSE x \in bad : \A y \in bad : x <= y
+              r == outs[j]  g == e.res.v[j]
+          IN IF r.out = "ok" /\ ~g.ok THEN "seq-raised-on-valid-step"
+             ELSE IF r.out # "ok" THEN "seq-returned-node-for-" \o r.why
+             ELSE "seq-" \o NodeDiff(r.node, g.node)
+
 ---------------------------------------------------------------------------
 Verdict(e) ==
   CASE e.act = "Master" -> V_Master(e)
@@ -107,6 +134,7 @@ Verdict(e) ==
     [] e.act = "CkdPub" -> V_CkdPub(e)
     [] e.act = "DerivePath" -> V_DerivePath(e)
     [] e.act = "Agree" -> V_Agree(e)
+    [] e.act = "CkdSeq" -> V_CkdSeq(e)
     [] OTHER -> "unknown-act"
 
 TraceInit == l = 1
